@@ -743,6 +743,13 @@ pub fn gen_for(suite: &str, tier: &str, rng: &mut Rng, emit: &mut dyn FnMut(Stri
                     continue;
                 }
                 emit(format!("c08.state {t} {ctx} {ee}"));
+                if rng.chance(1, 2) {
+                    // the day schedule itself on both sides of each bound (1899-12-31, 1900-01-01, 9999-12-31, 10000-01-01 …)
+                    let d = *rng.pick(&[lo - 2, lo - 1, lo, lo + 1, hi - 2, hi - 1, hi, hi + 1, hi + 7, lo - 7, day]);
+                    if ast::date_of(d).is_some() {
+                        emit(format!("c08.sched {d} {ctx} {ee}"));
+                    }
+                }
                 // next_change from before 1900 walks until something opens: only with a cheap first probe
                 let probe = format!("c08.iter {t} {} {ctx} {ee}", add_ns(&t, 86_400_000_000_000 * rng.range(1, if ctx.contains("b=") { 4000 } else { 900 })).unwrap_or_else(|| t.clone()));
                 emit(probe);
